@@ -121,7 +121,7 @@ enum {
     EV_RESCHED_THEN_CANCELLED_SAME_RUN, EV_OP_CANCEL_ASAP, EV_OP_CANCEL_HEAP, EV_OP_CANCEL_HEAP_INNER, EV_OP_CANCEL_TLIST,
     EV_RUN_TIES, EV_RUN_MIXED, EV_RUN_LEFT_NOT_DUE, EV_RUN_MAXTIME_TASK, EV_CLEANUP_CANCELS, EV_CLEANUP_RE_SCHED,
     EV_PUSH_FAIL, EV_PUSH_FAIL_REENTRANT, EV_TLIST_SORTED_INSERT, EV_TLIST_MERGE, EV_TLIST_RUN, EV_TLIST_HAS_TASKS_MIN,
-    EV_N
+    EV_TEMPLATE_COPY, EV_N
 };
 static const char *const EV_NAME[EV_N] = {
     "inv_run", "inv_canceled", "reentrant_schedules_of_other", "reentrant_self_reschedules",
@@ -132,6 +132,7 @@ static const char *const EV_NAME[EV_N] = {
     "run_all_with_equal_time_ties", "run_all_with_now_and_timed", "run_all_leaving_later_tasks", "run_all_running_uint64max_task",
     "cleanup_cancelled_tasks", "cleanup_reentrant_schedules", "injected_push_failures", "injected_push_failures_reentrant",
     "timed_list_sorted_inserts_nonempty", "timed_list_merges_with_heap", "timed_list_tasks_run", "has_tasks_min_from_timed_list",
+    "tasks_scheduled_as_struct_copy_of_pending_task",
 };
 static uint32_t ev[EV_N];
 static int ev_idx[EV_N];
@@ -202,6 +203,21 @@ static void do_schedule(int i, int k /* -1 = now */, int by /* -1 = driver */) {
     ref[i].in_batch = 0;
     ref[i].seq = ++g_seq;
     if (by != i) ref[i].fuel = 1;
+    if (i & 1) {
+        /* odd-numbered tasks begin each life as a struct copy of a task that is pending at that moment (a user filling in
+         * a new task from a template; both schedule calls re-initialise every link field themselves): prefer a template
+         * that sits in one of the lists, so that the copy carries live list links and a live heap handle */
+        int p = -1;
+        for (int j = 0; j < g_cfg.nt && p < 0; ++j)
+            if (j != i && ref[j].pending && T[j]->node.next) p = j;
+        for (int j = 0; j < g_cfg.nt && p < 0; ++j)
+            if (j != i && ref[j].pending) p = j;
+        if (p >= 0) {
+            *T[i] = *T[p];
+            T[i]->arg = (void *)(intptr_t)i;
+            ev[EV_TEMPLATE_COPY]++;
+        }
+    }
     if (k < 0) {
         aws_task_scheduler_schedule_now(S, T[i]);
     } else {
